@@ -174,6 +174,7 @@ func shorten(s string) string {
 
 func c06(r *core.Report) {
 	lookupFolding(r, "C06.lookup")
+	c06Streams(r)
 	p := r.Prog
 	pk := p.Pkg("openapi3filter")
 	info := pk.TypesInfo
@@ -772,6 +773,149 @@ func lookupFolding(r *core.Report, rule string) {
 		}
 		if n == 0 {
 			core.Fail("no map-receiver method with a computed lookup key found in openapi3 (Content.Get expected)")
+		}
+	})
+}
+
+// c06Streams: two ways of reading a stream that change what is decoded. (readn) Read fills only
+// the first n bytes of the buffer; using the whole buffer appends stale bytes of the previous
+// round. (single) a JSON body is one value: a decoder stops after the first value and leaves the
+// rest unread unless it is asked.
+func c06Streams(r *core.Report) {
+	p := r.Prog
+	info := p.Pkg("openapi3filter").TypesInfo
+	r.RunRule("C06.readn", "only the bytes that were read are used: after `n, err := x.Read(buf)` in package openapi3filter every use of buf before the next Read is the slice buf[:n]", 1, func() {
+		k := 0
+		for _, d := range p.AllDecls("openapi3filter") {
+			if d.Body == nil {
+				continue
+			}
+			ast.Inspect(d.Body, func(nd ast.Node) bool {
+				as, ok := nd.(*ast.AssignStmt)
+				if !ok || len(as.Rhs) != 1 || len(as.Lhs) != 2 {
+					return true
+				}
+				c, ok := ast.Unparen(as.Rhs[0]).(*ast.CallExpr)
+				if !ok || len(c.Args) != 1 {
+					return true
+				}
+				sel, ok := ast.Unparen(c.Fun).(*ast.SelectorExpr)
+				if !ok || sel.Sel.Name != "Read" {
+					return true
+				}
+				bufID, ok := ast.Unparen(c.Args[0]).(*ast.Ident)
+				if !ok {
+					return true
+				}
+				nID, ok := as.Lhs[0].(*ast.Ident)
+				if !ok {
+					return true
+				}
+				buf, nObj := info.ObjectOf(bufID), info.ObjectOf(nID)
+				k++
+				key := fmt.Sprintf("readn:%s#%d", core.FuncName(d), k)
+				// the statements that follow in the same block
+				var block *ast.BlockStmt
+				for _, anc := range core.PathTo(d.Body, as) {
+					if b, ok := anc.(*ast.BlockStmt); ok {
+						block = b
+					}
+				}
+				bad := ""
+				if block != nil {
+					after := false
+					for _, st := range block.List {
+						if st == ast.Stmt(as) {
+							after = true
+							continue
+						}
+						if !after {
+							continue
+						}
+						ast.Inspect(st, func(m ast.Node) bool {
+							switch x := m.(type) {
+							case *ast.SliceExpr:
+								if id, ok := ast.Unparen(x.X).(*ast.Ident); ok && info.ObjectOf(id) == buf {
+									if h, ok := x.High.(*ast.Ident); ok && info.ObjectOf(h) == nObj && x.Low == nil {
+										return false // buf[:n]
+									}
+								}
+							case *ast.Ident:
+								if info.ObjectOf(x) == buf {
+									bad = p.Pos(x.Pos())
+								}
+							}
+							return true
+						})
+					}
+				}
+				if bad != "" {
+					r.Bad(key, p.Pos(as.Pos()), fmt.Sprintf("after `%s` the whole buffer %s is used at %s instead of %s[:%s]: a short read (the last chunk of every entry) appends the stale tail of the previous chunk, so the decoded content is not the content that was sent", core.ExprStr(as.Rhs[0]), bufID.Name, bad, bufID.Name, nID.Name))
+				} else {
+					r.OK(key, p.Pos(as.Pos()), "only "+bufID.Name+"[:"+nID.Name+"] is used")
+				}
+				return true
+			})
+		}
+	})
+	r.RunRule("C06.single", "a JSON body is exactly one JSON value: every function of openapi3filter that decodes a body with a json.Decoder (`dec.Decode(&v)`) asks the same decoder for what follows (`dec.Token()` / `dec.More()` / `dec.Buffered()`) before it returns the value — trailing bytes after the first value are an error, not ignored input", 1, func() {
+		k := 0
+		for _, d := range p.AllDecls("openapi3filter") {
+			if d.Body == nil {
+				continue
+			}
+			var dec types.Object
+			ast.Inspect(d.Body, func(nd ast.Node) bool {
+				as, ok := nd.(*ast.AssignStmt)
+				if !ok || len(as.Rhs) != 1 || len(as.Lhs) != 1 {
+					return true
+				}
+				if c, ok := ast.Unparen(as.Rhs[0]).(*ast.CallExpr); ok {
+					if f := core.CalleeOf(info, c); f != nil && f.FullName() == "encoding/json.NewDecoder" {
+						if id, ok := as.Lhs[0].(*ast.Ident); ok {
+							dec = info.ObjectOf(id)
+						}
+					}
+				}
+				return true
+			})
+			if dec == nil {
+				continue
+			}
+			decodes, asks := false, false
+			ast.Inspect(d.Body, func(nd ast.Node) bool {
+				c, ok := nd.(*ast.CallExpr)
+				if !ok {
+					return true
+				}
+				sel, ok := ast.Unparen(c.Fun).(*ast.SelectorExpr)
+				if !ok {
+					return true
+				}
+				if id, ok := ast.Unparen(sel.X).(*ast.Ident); !ok || info.ObjectOf(id) != dec {
+					return true
+				}
+				switch sel.Sel.Name {
+				case "Decode":
+					decodes = true
+				case "Token", "More", "Buffered", "InputOffset":
+					asks = true
+				}
+				return true
+			})
+			if !decodes {
+				continue
+			}
+			k++
+			key := "single:" + core.FuncName(d)
+			if asks {
+				r.OK(key, p.Pos(d.Pos()), "the decoder is asked for what follows the value")
+			} else {
+				r.Bad(key, p.Pos(d.Pos()), fmt.Sprintf("%s decodes the first JSON value of the body and returns it without looking at what follows: `{\"name\":\"x\"} trailing garbage` and `{\"name\":\"x\"}{\"name\":5}` are accepted as the body {\"name\":\"x\"}", core.FuncName(d)))
+			}
+		}
+		if k == 0 {
+			core.Fail("no body decoder using json.NewDecoder found in openapi3filter")
 		}
 	})
 }
